@@ -255,9 +255,10 @@ ARENA = {
     'C07': dict(
         x=['panic', 'block-contents-changed', 'base-allocator-ledger', 'stats-identity', 'live-blocks-overlap'],
         mism=['result-kind', 'base-allocator-events', 'stats'],
-        colls_x=['overflow:', 'a failed reserve'],
+        colls_x=['overflow:', 'a failed reserve', 'capacity: a failed'],
+        colls_mism=[' capacity '],
         search_x=True,
-        note='PARTIAL: arena-level failure theorems proved; collection-level atomicity (a failed push/reserve keeps length and contents; overflowing requests are errors) is probed on the implementation only'),
+        note='arena-level failure theorems proved; collection level: for BumpVec / FixedBumpVec / MutBumpVec(Rev) the capacity model VecCap.v is proved atomic (a failed reserve / push / extend leaves length and capacity as they were; overflowing requests are errors without an allocator call) and replayed from capacity histories with injected refusals; PARTIAL: strings and the contents after a failure are probed on the implementation only'),
     'C10': dict(
         x=['stats-identity', 'chunk-list-forward-backward-differ', 'chunk-not-larger-than-predecessor',
            'chunk-size-not-multiple-of-16', 'position-outside-content-range', 'position-not-multiple-of-min-align',
@@ -478,6 +479,13 @@ def check_arena(ctx):
                     for (b, case, xl) in rc_['implx']:
                         if any(k in xl for k in conf['colls_x']):
                             ctx.violations.append({'kind': 'colls-probe', 'build': b, 'what_fails': xl, 'signature': 'colls:' + re.sub(r'[0-9]+', 'N', xl)[:80]})
+                    for (b, rc, case, err) in rc_.get('crashes', []):
+                        ctx.violations.append({'kind': 'colls-case', 'build': b, 'case': case,
+                                               'what_fails': 'the process died (exit status %d: %s) while the crate executed this capacity history of a BumpVec / FixedBumpVec through its safe API' % (rc, err.strip()[-120:]),
+                                               'signature': 'colls:crash-in-capacity-history'})
+                    relm = [(b, l) for (b, l) in rc_['mism'] if any(k in l for k in conf.get('colls_mism', []))]
+                    if relm and not ctx.violations:
+                        ctx.problems.append(('tie', 'capacity model and implementation disagree on %d histor(ies); first: %s' % (len(relm), relm[0][1][:900])))
             S = res['summary']
             ctx.cov.update({
                 'evaluations': S['steps'],
@@ -534,8 +542,8 @@ for _p in ARENA:
 COLLS = {
     'C06': dict(x=['accounted', 'lost', 'unknown element', 'stale slot', 'drops do not match', 'was dropped while moving'],
                 note='PARTIAL: conservation proved for the modelled algorithms (now including into_iter, splice, map_in_place with a panicking closure, append); map / extend with lying size hints / resize_with / dedup_by_key / into_boxed_slice / partition are covered by the drop-count monitor and std Vec in lock-step only (extras probe)'),
-    'C08': dict(x=['std::vec::Vec', 'contents differ', 'returned values differ', 'capacity:', 'capacity ', 'overwrote a neighbouring allocation', 'yielded', 'len() of the iterator', 'accounted', 'lost'],
-                note='PARTIAL: list-function refinement proved for the modelled operations; capacity clauses and unmodelled operations are checked against std::vec::Vec in lock-step only'),
+    'C08': dict(x=['std::vec::Vec', 'contents differ', 'returned values differ', 'capacity:', 'capacity ', 'cap history', 'overwrote a neighbouring allocation', 'yielded', 'len() of the iterator', 'accounted', 'lost'],
+                note='list-function refinement proved for the modelled operations; capacity clauses proved for BumpVec / FixedBumpVec / MutBumpVec / MutBumpVecRev over the capacity model VecCap.v (capacity >= length in every reachable state, reserve / reserve_exact / with_capacity keep their promise, no allocator call and no move while the promise suffices, amortised doubling, a fixed vector never reallocates and fails exactly when full) and replayed from capacity histories; PARTIAL: zero-sized element types and unmodelled operations are checked against std::vec::Vec in lock-step only'),
     'C16': dict(x=['split_off capacities', 'split_off part', 'changed the remaining part', 'changed the split-off part', 'parts:'],
                 ops=['split_off', 'split_at', 'split_first', 'split_last', 'split_off_first', 'split_off_last', 'partition', 'merge'],
                 note='split_off (rotate in place), split_at, split_first/last (+ split_off_ twins), merge and partition (partition_in_place + split_at) proved against their specifications (Parts.v: windows of one buffer) and replayed from the trace; PARTIAL: into_flattened, split_at_spare, capacities of split vectors and the independence of the parts under follow-up operations are checked on the implementation only'),
@@ -555,7 +563,22 @@ def run_colls(ctx, cases, seeds, inputs_file=None, binname='colls', prefix='C ')
             cmd = ('%s --input %s > %s' % (exe, inputs_file, trace)) if inputs_file else ('%s --seed %d --cases %d > %s' % (exe, sd, cases, trace))
             rc, out, dt = sh(cmd, timeout=1800)
             if rc != 0:
-                ctx.problems.append(('harness', '%s harness crashed rc=%d %s' % (binname, rc, out[-300:])))
+                # a capacity history announces its input (VB line, flushed) before it runs: when the process
+                # died inside one, that line is the failing input
+                inflight = None
+                try:
+                    with open(trace) as f:
+                        for l in f:
+                            if l.startswith('VB '):
+                                inflight = l.rstrip('\n')
+                            elif l.startswith('V '):
+                                inflight = None
+                except OSError:
+                    pass
+                if inflight and binname == 'colls':
+                    res.setdefault('crashes', []).append((b, rc, 'V ' + inflight[3:], out[-300:]))
+                else:
+                    ctx.problems.append(('harness', '%s harness crashed rc=%d %s' % (binname, rc, out[-300:])))
             rc2, out2, _ = sh('%s %s < %s' % (DRV, binname, trace), timeout=1800)
             if rc2 != 0:
                 ctx.problems.append(('driver', 'drv %s failed: ' % binname + out2[-400:]))
@@ -566,9 +589,9 @@ def run_colls(ctx, cases, seeds, inputs_file=None, binname='colls', prefix='C ')
             with open(trace) as f:
                 for l in f:
                     l = l.rstrip('\n')
-                    if l.startswith(prefix):
+                    if l.startswith(prefix) or (binname == 'colls' and l.startswith('V ')):
                         last_case = l
-                        if len(res['samples']) < 6:
+                        if len(res['samples']) < 6 and not l.startswith('V '):
                             res['samples'].append(l[:200])
                     elif l.startswith('X '):
                         xs.append((b, last_case, l))
@@ -603,10 +626,19 @@ def colls_verdict(ctx, pid, res, conf):
         ctx.violations.append({'kind': 'colls-probe' if probe else 'colls-case', 'build': b, 'case': None if probe else case, 'what_fails': xl,
                                'signature': 'colls:%s' % re.sub(r'[0-9]+', 'N', msg)[:80],
                                'how_to_replay': 'tools/vcheck %s --replay <this file>' % pid})
+    if pid in ('C08', 'C07'):
+        for (b, rc, case, err) in res.get('crashes', []):
+            ctx.violations.append({'kind': 'colls-case', 'build': b, 'case': case,
+                                   'what_fails': 'the process died (exit status %d: %s) while the crate executed this capacity history of a BumpVec / FixedBumpVec through its safe API' % (rc, err.strip()[-120:]),
+                                   'signature': 'colls:crash-in-capacity-history',
+                                   'how_to_replay': 'tools/vcheck %s --replay <this file>' % pid})
     # a violation that carries its own case replays exactly: report those first
     ctx.violations.sort(key=lambda v: v.get('kind') == 'colls-probe')
     c16_ops = (' split_off ', ' split_at ', ' split_first;', ' split_last;', ' split_off_first;', ' split_off_last;', ' partition;', ' merge ')
     rel = [(b, l) for (b, l) in res['mism'] if (pid != 'C16' or any(o in l for o in c16_ops))]
+    if pid != 'C08':
+        # capacity histories (VecCap.v) belong to C08 (and C07, see check_arena)
+        rel = [(b, l) for (b, l) in rel if ' capacity ' not in l]
     if rel and not ctx.violations:
         # a disagreement between model and implementation on what is kept / handed out / dropped
         # is itself an observable difference from the proved behaviour: report the case
@@ -648,7 +680,7 @@ def check_colls(ctx):
             ctx.cov.update({
                 'evaluations': S['cases'],
                 'distinct_nontrivial': min(S['nontrivial'], S['distinct']),
-                'rule': 'one operation per case on a freshly built collection (BumpVec, MutBumpVec, FixedBumpVec, BumpBox<[T]>, MutBumpVecRev mirrored) of 0..12 identified elements; operations truncate/pop/remove/swap_remove/insert/push/retain/dedup_by/drain (both ends, dropped / keep_rest / leaked)/extract_if (early drop)/split_off with boundary and out-of-range arguments; callback answers scripted per invocation with a panic at a random invocation in 1/3 of the cases; a panicking Drop in 1/8; every case replayed on the extracted Coq model (kept / handed out / dropped / unwound / number of callback invocations compared) and on std::vec::Vec in lock-step; every 5th case is one operation dividing or merging a BumpBox<[T]> of 0..11 drop-counting elements (split_at incl. out of range, split_first/last, split_off_first/last, partition with per-element scripted answers, merge of two of three adjacent windows in any order), replayed on Parts.v; plus into_iter/splice/map_in_place/append (extras), overflow probes of try_reserve(_exact). non-trivial = cases that dropped, handed out or unwound (counted by the driver); distinct = distinct (kind, op, renumbered input, answers, drop-panic set)',
+                'rule': 'one operation per case on a freshly built collection (BumpVec, MutBumpVec, FixedBumpVec, BumpBox<[T]>, MutBumpVecRev mirrored) of 0..12 identified elements; operations truncate/pop/remove/swap_remove/insert/push/retain/dedup_by/drain (both ends, dropped / keep_rest / leaked)/extract_if (early drop)/split_off with boundary and out-of-range arguments; callback answers scripted per invocation with a panic at a random invocation in 1/3 of the cases; a panicking Drop in 1/8; every case replayed on the extracted Coq model (kept / handed out / dropped / unwound / number of callback invocations compared) and on std::vec::Vec in lock-step; every 10th case is a capacity history of a BumpVec / FixedBumpVec / MutBumpVec / MutBumpVecRev (1-40 reserve / reserve_exact / push / extend / pop / truncate / shrink_to(_fit) operations, element sizes 1/4/8/24/1600, refusals, absurd sizes) replayed on VecCap.v; every 5th case is one operation dividing or merging a BumpBox<[T]> of 0..11 drop-counting elements (split_at incl. out of range, split_first/last, split_off_first/last, partition with per-element scripted answers, merge of two of three adjacent windows in any order), replayed on Parts.v; plus into_iter/splice/map_in_place/append (extras), overflow probes of try_reserve(_exact). non-trivial = cases that dropped, handed out or unwound (counted by the driver); distinct = distinct (kind, op, renumbered input, answers, drop-panic set)',
                 'samples': res['samples'],
                 'traces_validated_against_impl': S['cases'],
                 'input_distribution': {'by_kind_op': S['by_kind_op'], 'unwound': S['unwound'], 'with_drop_panic': S['with_drop_panic']},
